@@ -161,10 +161,13 @@ type Outcome struct {
 	StartNanos int64 `json:"start_ns"` // fake time at which the op started
 	FireNode   string `json:"fire_node,omitempty"`
 	FireStack  string `json:"fire_stack,omitempty"` // node kinds open (being evaluated) when the fault fired
+	Identity   string `json:"identity,omitempty"`   // rekeyquery: how the in-place and the fresh-copy results differ
 
 	nodeKinds map[string]int
 	cleanup   func()
 	ret       any
+	rawKept   string // rendering after the caller overwrote what the call created for it
+	errObj    error
 }
 
 // SameRaw reports observable equality including raw keyvalue ids (valid only
